@@ -323,6 +323,9 @@ func run(c *h.Check) {
 	for _, s := range bshapes() {
 		c.Explore(bScenario(s), 2, 50000, false)
 	}
+	for _, s := range pshapes() {
+		c.Explore(pScenario(s), 1, 50000, false)
+	}
 	maxLen, bound := 2, 1
 	if c.Thorough() {
 		maxLen, bound = 3, 2
@@ -351,6 +354,11 @@ func replay(c *h.Check, rf *h.ReplayFile) []vrt.Violation {
 	for _, s := range bshapes() {
 		if s.name == rf.Scenario {
 			return h.ReplaySchedule(bScenario(s), rf)
+		}
+	}
+	for _, s := range pshapes() {
+		if s.name() == rf.Scenario {
+			return h.ReplaySchedule(pScenario(s), rf)
 		}
 	}
 	for _, s := range rshapes() {
